@@ -370,8 +370,69 @@ Section JoinAttrs.
 End JoinAttrs.
 
 (* ------------------------------------------------------------------ *)
+(* P6. The stdin cache behind //os.stdin (method read of stdOsStdin, syntax/std_os.go):
+   a mutex-guarded cell whose fill consumes a ONE-SHOT stream.
+   cell 0 = d.bytes (0 = nil, otherwise 1 + number of chunks it holds),
+   cell 1 = number of chunks already taken from the stream (K chunks in all),
+   mutex 0 = d.mutex, mutex 1 = the atomicity of one Read call on the source
+   (an *os.File / pipe hands every chunk to exactly one caller).
+   io.ReadAll is the loop 4..11: take a chunk until end of stream.
+   Specification: every caller gets the whole stream (1 + K), the serial result. *)
+Definition geK (k : Z) (z : Z) : bool := Z.leb k z.
+Section Stdin.
+  Variable K : nat.
+  Definition p_stdin : list instr :=
+    [ Lock 0;                              (*  0 d.mutex.Lock(); defer d.mutex.Unlock()   *)
+      Read 0 0;                            (*  1 if d.bytes != nil {                      *)
+      JmpIf nonZero 0 16;                  (*  2    return d.bytes, nil }                 *)
+      Compute 2 (const 0) 0;               (*  3 f, err := io.ReadAll(reader):  acc := 0  *)
+      Lock 1;                              (*  4   one Read call ...                      *)
+      Read 1 1;                            (*  5                                          *)
+      JmpIf (geK (Z.of_nat K)) 1 12;       (*  6   ... end of stream                      *)
+      Compute 1 Z.succ 1;                  (*  7                                          *)
+      Write 1 1;                           (*  8   ... or takes the next chunk            *)
+      Unlock 1;                            (*  9                                          *)
+      Compute 2 Z.succ 2;                  (* 10   acc = append(acc, chunk)               *)
+      Jmp 4;                               (* 11                                          *)
+      Unlock 1;                            (* 12                                          *)
+      Compute 0 Z.succ 2;                  (* 13 rel.NewBytes(f)                          *)
+      Write 0 0;                           (* 14 d.bytes = ...                            *)
+      Nop;                                 (* 15                                          *)
+      Unlock 0;                            (* 16 deferred                                 *)
+      Halt ].                              (* 17 result: register 0                       *)
+  Definition stdin_serial : Z := Z.succ (Z.of_nat K).
+
+  (* the variant the check must catch (no data race, wrong results): the mutex
+     is released around the blocking read and the result published with a
+     double check *)
+  Definition p_stdin_narrow : list instr :=
+    [ Lock 0;                              (*  0 *)
+      Read 0 0;                            (*  1 cached := d.bytes *)
+      Unlock 0;                            (*  2 *)
+      JmpIf nonZero 0 21;                  (*  3 if cached != nil { return cached } *)
+      Compute 2 (const 0) 0;               (*  4 io.ReadAll(reader) outside the lock *)
+      Lock 1;                              (*  5 *)
+      Read 1 1;                            (*  6 *)
+      JmpIf (geK (Z.of_nat K)) 1 13;       (*  7 *)
+      Compute 1 Z.succ 1;                  (*  8 *)
+      Write 1 1;                           (*  9 *)
+      Unlock 1;                            (* 10 *)
+      Compute 2 Z.succ 2;                  (* 11 *)
+      Jmp 5;                               (* 12 *)
+      Unlock 1;                            (* 13 *)
+      Lock 0;                              (* 14 d.mutex.Lock() *)
+      Read 0 0;                            (* 15 if d.bytes == nil { *)
+      JmpIf nonZero 0 19;                  (* 16 *)
+      Compute 0 Z.succ 2;                  (* 17 *)
+      Write 0 0;                           (* 18    d.bytes = rel.NewBytes(f) } *)
+      Unlock 0;                            (* 19 *)
+      Jmp 21;                              (* 20 *)
+      Halt ].                              (* 21 *)
+End Stdin.
+
+(* ------------------------------------------------------------------ *)
 (* The verdict of the model per protocol, compared with the race detector. *)
-Inductive proto := PTupleNames | PTupleBucket | POnceCell | PRelposIndex | PWhereErr | PImportCache | PJoinAttrs
+Inductive proto := PTupleNames | PTupleBucket | POnceCell | PRelposIndex | PWhereErr | PImportCache | PJoinAttrs | PStdinCache | MStdinNarrowLock
                  | MTupleNoOnce | MRelposUnlockedRead.
 Definition model_racy (q : Quirks) (p : proto) : bool :=
   match p with
@@ -385,3 +446,7 @@ Definition model_deadlocks (q : Quirks) (p : proto) : bool :=
   | PImportCache => q_importcache_error_no_broadcast q
   | _ => false
   end.
+
+(* variants that are free of data races but give non-serial results *)
+Definition model_nonserial (p : proto) : bool :=
+  match p with MStdinNarrowLock => true | _ => false end.
